@@ -256,7 +256,8 @@ def analytic_params(rng, thorough: bool, size: str = "any") -> Dict[str, Any]:
     scale = 3 * na * k_ry * 1000.0 / v0
     P = rng.uniform(-1.0, 3.0, size=(nt, nv)) * scale
     pst = rng.uniform(-1.0, 3.0, size=nv) * scale
-    cv = 3 * na * k_ry * rng.uniform(0.2, 3.0, size=(nt, nv))
+    # "all positive heat-capacity fields": log-uniform over 9 decades (C_V is tiny at low T), not just O(3 N k_B)
+    cv = 3 * na * k_ry * 10.0 ** rng.uniform(-9.0, 0.5, size=(nt, nv))
     return {"kind": "analytic", "nq": nq, "na": na, "v0": v0, "v": v.tolist(), "t": t.tolist(),
             "w0": w0.tolist(), "g0": g0.tolist(), "c": c.tolist(), "w": weights.tolist(), "e": e.tolist(),
             "P": P.tolist(), "pst": pst.tolist(), "cv": cv.tolist(),
@@ -302,7 +303,7 @@ def free_case(rng, thorough: bool) -> Dict[str, Any]:
     scale = 3 * na * k_ry * 1000.0 / v0
     return {"nv": nv, "np": np_, "nq": nq, "na": na, "v": v, "t": t, "freq": freq, "mg0": vdr, "mg1": gamma, "mg2": g2,
             "w": gen_weights(rng, nq), "e": gen_strain(rng, nv), "P": rng.uniform(-1.0, 3.0, size=(nt, nv)) * scale,
-            "pst": rng.uniform(-1.0, 3.0, size=nv) * scale, "cv": 3 * na * k_ry * rng.uniform(0.2, 3.0, size=(nt, nv))}
+            "pst": rng.uniform(-1.0, 3.0, size=nv) * scale, "cv": 3 * na * k_ry * 10.0 ** rng.uniform(-9.0, 0.5, size=(nt, nv))}
 
 
 COMPONENTS = [("long", (0, 0)), ("long", (1, 1)), ("long", (2, 2)), ("off", (0, 1)), ("off", (0, 2)), ("off", (1, 2)),
@@ -480,7 +481,7 @@ def _compare_model(res: Result, case, consts, comps, ctx: Ctx, tag: str, fields=
         sc_gap = float(numpy.max(numpy.abs(impl["gap"][numpy.isfinite(impl["gap"])]), initial=0.0)) or 1.0
         good = True
         for f in fields:
-            s = sc_gap if f == "gap" else sc
+            s = sc_gap if f == "gap" else (max(sc, sc_gap) if f == "adia" else sc)
             ok, err, _ = family_close(impl[f], model[f], rtol=RTOL_MODEL, scale=s)
             if ok and numpy.isfinite(err):
                 STATS["max_rel_err_model"] = max(STATS["max_rel_err_model"], err)
@@ -612,6 +613,27 @@ def run(ctx: Ctx, which=WHICH, pid=PID, fields=("zp", "th", "iso")) -> Result:
         comps = [COMPONENTS[i] for i in rng.permutation(len(COMPONENTS))[:2]]
         _compare_model(res, case, consts, comps, ctx, f"free#{idx}", fields=fields)
         seen.add((case["nq"], case["na"], len(case["t"]), len(case["v"]), float(case["freq"].ravel()[-1])))
+    # ---- same-shape histories: calculators with an identical grid shape but different temperatures and spectra are
+    # evaluated one after another in this process, each released before the next is built (a result must be a
+    # function of the inputs, not of what was computed before on an object of the same shape / address)
+    import gc
+    n_hist = 10 if thorough else 3
+    dist["history_steps"] = 0
+    for hidx in range(n_hist):
+        base = free_case(rng, thorough)
+        comps = [COMPONENTS[int(rng.integers(0, 3))], COMPONENTS[int(rng.integers(3, 7))]]
+        for step in range(3):
+            case = dict(base)
+            t = numpy.array(base["t"], dtype=float) * float(rng.uniform(0.6, 1.7))
+            case["t"] = t
+            f = numpy.array(base["freq"], dtype=float)
+            fac = rng.uniform(0.7, 1.3, size=f.shape)
+            fnew = numpy.clip(f * fac, 30.0, 1500.0)
+            fnew[..., 0, :3] = f[..., 0, :3]
+            case["freq"] = fnew
+            _compare_model(res, case, consts, comps, ctx, f"history#{hidx}.{step}", fields=fields)
+            dist["history_steps"] += 1
+            gc.collect()
     res.distinct_nontrivial = len(seen)
     res.extra["tolerances"] = {"model_vs_impl_rtol_of_family_scale": RTOL_MODEL, "oracle_vs_impl_rtol_of_family_scale": RTOL_ORACLE,
                                "unit_constants_rtol": RTOL_CONST, **STATS}
